@@ -39,6 +39,10 @@ type TypedInfo struct {
 	// such a slice (elements are written into a backing array other holders may share)
 	ElemRanges     map[string]map[int]bool
 	AppendsInPlace map[string]map[int]bool
+	// MapWrites: file -> offset of a statement that stores into or deletes from a map with string keys (m[k] = v, delete(m, k))
+	// -> the map expression's source text; reported by the identity of the map object, so that a range over a copy of the map
+	// header meets it
+	MapWrites map[string]map[int]string
 	Errors []string
 }
 
@@ -81,7 +85,7 @@ func goListExports(repo string, pkgs []string) (map[string]string, error) {
 
 // TypeCheck computes the marks for the given packages. extra overrides file contents (repo-relative paths).
 func TypeCheck(repo string, pkgs []string, extra map[string]string) (*TypedInfo, error) {
-	ti := &TypedInfo{Fields: map[string]map[int]Mark{}, Derefs: map[string]map[int]Mark{}, MapRanges: map[string]map[int]bool{}, ElemRanges: map[string]map[int]bool{}, AppendsInPlace: map[string]map[int]bool{}}
+	ti := &TypedInfo{Fields: map[string]map[int]Mark{}, Derefs: map[string]map[int]Mark{}, MapRanges: map[string]map[int]bool{}, ElemRanges: map[string]map[int]bool{}, AppendsInPlace: map[string]map[int]bool{}, MapWrites: map[string]map[int]string{}}
 	exports, err := goListExports(repo, pkgs)
 	if err != nil {
 		return nil, err
@@ -174,6 +178,20 @@ func galaxyStruct(t types.Type) (*types.Named, bool) {
 	return n, true
 }
 
+// stringKeyMap: is e a map with string keys?
+func stringKeyMap(info *types.Info, e ast.Expr) bool {
+	tv, ok := info.Types[e]
+	if !ok {
+		return false
+	}
+	m, ok := tv.Type.Underlying().(*types.Map)
+	if !ok {
+		return false
+	}
+	b, ok := m.Key().Underlying().(*types.Basic)
+	return ok && b.Kind() == types.String
+}
+
 // structSlice: is e a slice whose elements are galaxy structs (values, not pointers)?
 func structSlice(info *types.Info, e ast.Expr) bool {
 	tv, ok := info.Types[e]
@@ -228,7 +246,28 @@ func markFile(fset *token.FileSet, f *ast.File, rel string, info *types.Info, ti
 	}
 	ast.Inspect(f, func(n ast.Node) bool {
 		switch v := n.(type) {
+		case *ast.ExprStmt:
+			if call, ok := v.X.(*ast.CallExpr); ok && len(call.Args) == 2 {
+				if id, ok := call.Fun.(*ast.Ident); ok && id.Name == "delete" {
+					if _, isBuiltin := info.Uses[id].(*types.Builtin); isBuiltin && stringKeyMap(info, call.Args[0]) && sideEffectFree(call.Args[0]) {
+						if ti.MapWrites[rel] == nil {
+							ti.MapWrites[rel] = map[int]string{}
+						}
+						ti.MapWrites[rel][fset.Position(v.Pos()).Offset] = types.ExprString(call.Args[0])
+					}
+				}
+			}
+			return true
 		case *ast.AssignStmt:
+			for _, l := range v.Lhs {
+				if ix, ok := l.(*ast.IndexExpr); ok && stringKeyMap(info, ix.X) && sideEffectFree(ix.X) {
+					if ti.MapWrites[rel] == nil {
+						ti.MapWrites[rel] = map[int]string{}
+					}
+					ti.MapWrites[rel][fset.Position(v.Pos()).Offset] = types.ExprString(ix.X)
+					break
+				}
+			}
 			if len(v.Lhs) == 1 && len(v.Rhs) == 1 && sideEffectFree(v.Lhs[0]) {
 				if call, ok := v.Rhs[0].(*ast.CallExpr); ok && len(call.Args) > 0 {
 					if id, ok := call.Fun.(*ast.Ident); ok && id.Name == "append" {
